@@ -2074,6 +2074,93 @@ def _networkx_view_forms(tree):
     return count[0]
 
 
+def _temp_str_accumulators(tree):
+    """Inside a loop body:  t = ''; [if c:] t += x; ...; acc += t + rest   ->   [if c:] acc += x; ...; acc += rest
+    when `acc` is not touched between `t = ''` and the statement that appends `t`, `t` is the leftmost operand there and is
+    not used anywhere else: the pieces reach the accumulator in the same order either way.  The emission rules read the
+    accumulator."""
+    count = [0]
+
+    def names_in(node):
+        return {x.id for x in ast.walk(node) if isinstance(x, ast.Name)}
+
+    def leftmost(e):
+        while isinstance(e, ast.BinOp) and isinstance(e.op, ast.Add):
+            e = e.left
+        return e
+
+    def drop_leftmost(e):
+        if isinstance(e, ast.BinOp) and isinstance(e.op, ast.Add):
+            if isinstance(e.left, ast.BinOp) and isinstance(e.left.op, ast.Add):
+                return ast.copy_location(ast.BinOp(left=drop_leftmost(e.left), op=ast.Add(), right=e.right), e)
+            return e.right
+        return None
+
+    def rewrite(fn, body):
+        i = 0
+        while i < len(body):
+            st = body[i]
+            if isinstance(st, ast.Assign) and len(st.targets) == 1 and isinstance(st.targets[0], ast.Name) and isinstance(st.value, ast.Constant) and st.value.value == "":
+                t = st.targets[0].id
+                # the statement that appends t to another name
+                use = None
+                for j in range(i + 1, len(body)):
+                    u = body[j]
+                    if isinstance(u, ast.AugAssign) and isinstance(u.op, ast.Add) and isinstance(u.target, ast.Name) and u.target.id != t and \
+                            isinstance(leftmost(u.value), ast.Name) and leftmost(u.value).id == t:
+                        use = j
+                        break
+                if use is not None:
+                    acc = body[use].target.id
+                    between = body[i + 1:use]
+                    ok = True
+                    for b in between:
+                        for x in ast.walk(b):
+                            if isinstance(x, ast.Name) and x.id == acc:
+                                ok = False
+                            if isinstance(x, ast.Name) and x.id == t and not (isinstance(x.ctx, ast.Store)):
+                                ok = False
+                            if isinstance(x, (ast.For, ast.While, ast.Try, ast.With, ast.FunctionDef, ast.Return, ast.Break, ast.Continue)):
+                                ok = False
+                        # only `t += e` stores, possibly under ifs
+                        for x in ast.walk(b):
+                            if isinstance(x, ast.Assign) and t in names_in(x.targets[0]):
+                                ok = False
+                            if isinstance(x, ast.AugAssign) and isinstance(x.target, ast.Name) and x.target.id == t and not isinstance(x.op, ast.Add):
+                                ok = False
+                    rest_uses = sum(1 for k, b in enumerate(body) if k not in range(i, use + 1) for x in ast.walk(b) if isinstance(x, ast.Name) and x.id == t)
+                    other = sum(1 for x in ast.walk(fn) if isinstance(x, ast.Name) and x.id == t)
+                    inside = sum(1 for b in body[i:use + 1] for x in ast.walk(b) if isinstance(x, ast.Name) and x.id == t)
+                    t_in_use = sum(1 for x in ast.walk(body[use].value) if isinstance(x, ast.Name) and x.id == t)
+                    if ok and rest_uses == 0 and other == inside and t_in_use == 1:
+                        class R(ast.NodeTransformer):
+                            def visit_AugAssign(self, node):
+                                if isinstance(node.target, ast.Name) and node.target.id == t:
+                                    node.target = ast.copy_location(ast.Name(id=acc, ctx=ast.Store()), node.target)
+                                return node
+                        for b in between:
+                            R().visit(b)
+                        rest = drop_leftmost(body[use].value)
+                        new_use = [] if rest is None else [ast.copy_location(ast.AugAssign(target=ast.Name(id=acc, ctx=ast.Store()), op=ast.Add(), value=rest), body[use])]
+                        body[i:use + 1] = between + new_use
+                        for b in body:
+                            ast.fix_missing_locations(b)
+                        count[0] += 1
+                        continue
+            for fld in ("body", "orelse", "finalbody"):
+                sub = getattr(st, fld, None)
+                if isinstance(sub, list) and sub and isinstance(sub[0], ast.stmt) and not isinstance(st, (ast.FunctionDef, ast.AsyncFunctionDef, ast.ClassDef)):
+                    rewrite(fn, sub)
+            i += 1
+
+    for node in ast.walk(tree):
+        if isinstance(node, (ast.FunctionDef, ast.AsyncFunctionDef)):
+            for sub in ast.walk(node):
+                if isinstance(sub, (ast.For, ast.While)):
+                    rewrite(node, sub.body)
+    return count[0]
+
+
 def inline_module(tree, modname):
     sym_helpers = _symbol_helpers_to_predicates(tree, modname)
     n_rec = _namedtuples_to_tuples(tree)
@@ -2090,6 +2177,9 @@ def inline_module(tree, modname):
     tree = inl.run()
     n_app = _append_loops_to_comprehensions(tree) if inl.known is not None else 0
     n_nxf = _networkx_view_forms(tree) if inl.known is not None else 0
+    n_tmp = _temp_str_accumulators(tree) if inl.known is not None else 0
+    if n_tmp:
+        inl.report.append("%d per-iteration string temporaries read as direct appends to the accumulator" % n_tmp)
     if n_nxf:
         inl.report.append("%d NetworkX look-ups spelled out (attribute dict comprehension, nodes.values() loop) read in their library form" % n_nxf)
     if n_app:
